@@ -336,8 +336,13 @@ impl Tree {
         let free = self.free() + free;
         assert!(free <= TREE_FRAMES, "{free}");
 
-        // Check if transition is allowed by policy
-        if free == TREE_FRAMES && policy(self.class(), default, free) != Policy::Invalid {
+        // Check if transition is allowed by policy.
+        // The class of a reserved tree is tied to its local reservation,
+        // it is reset when the tree is unreserved.
+        if free == TREE_FRAMES
+            && !self.reserved()
+            && policy(self.class(), default, free) != Policy::Invalid
+        {
             self.set_class(default);
         }
         self.with_free(free)
